@@ -4,6 +4,7 @@ import (
 	"fmt"
 	"go/token"
 	"go/types"
+	"path/filepath"
 	"strings"
 
 	"golang.org/x/tools/go/ssa"
@@ -26,7 +27,9 @@ var guardedLiteclient = map[string]string{
 func propC12(c *Ctx) propInfo {
 	c.errflow(excC12E2, "liteclient")
 	c.queryFraming()
+	c.wireSizes("liteclient")
 	c.connectionDispatch()
+	c.handTagDispatch()
 	c.nilContradictions("E1.P8-nil-contradiction", "liteclient")
 	la := c.newLockAnalysis("liteclient")
 	la.guardedBy("E9.K1-guarded-by", guardedLiteclient, map[string]string{
@@ -738,4 +741,80 @@ func (c *Ctx) connectionDispatch() {
 		})
 	}
 	c.floor(R, 8)
+}
+
+// handTagDispatch: the few answers the client decodes by hand (WaitMasterchainSeqno,
+// WaitMasterchainBlock) read a 4-byte constructor id and branch on it. Every id they compare with
+// is a constructor of lite_api.tl; the value decoded behind `tag == K` (true edge) has the Go type
+// generated for constructor K; and the body handed to the decoder starts right after the 4 id bytes.
+func (c *Ctx) handTagDispatch() {
+	const R = "E4.hand-dispatch"
+	decls, err := parseTLSchema(filepath.Join(c.RepoDir, "liteclient", "lite_api.tl"))
+	if err != nil {
+		c.bad(R, "schema parse", token.NoPos, err.Error())
+		return
+	}
+	byID := map[int64]tlDecl{}
+	for _, d := range decls {
+		if !d.isFunc {
+			byID[int64(d.id)] = d
+		}
+	}
+	n := 0
+	for _, f := range c.moduleFuncs("liteclient") {
+		pos := c.Fset.Position(f.Pos())
+		if strings.HasSuffix(pos.Filename, "generated.go") {
+			continue
+		}
+		isTag := func(v ssa.Value) bool {
+			cl := callOf(v)
+			return cl != nil && callQName(&cl.Call) == "encoding/binary.littleEndian.Uint32"
+		}
+		for _, cl := range callsTo(f, modPath+"/tl.Unmarshal") {
+			// the dominating tag facts
+			var k int64 = -1
+			eq := false
+			for _, ft := range factsAt(f, cl.Block()) {
+				bo, ok := ft.Cond.(*ssa.BinOp)
+				if !ok || (bo.Op != token.EQL && bo.Op != token.NEQ) || !isTag(bo.X) {
+					continue
+				}
+				if kk, ok := constInt(bo.Y); ok && k < 0 {
+					k, eq = kk, (bo.Op == token.EQL) == ft.Truth
+				}
+			}
+			if k < 0 {
+				continue
+			}
+			n++
+			d, known := byID[k]
+			// target type
+			tname := "?"
+			if mi, ok := cl.Call.Args[1].(*ssa.MakeInterface); ok {
+				if pt, ok := mi.X.Type().Underlying().(*types.Pointer); ok {
+					if nt, ok := pt.Elem().(*types.Named); ok {
+						tname = nt.Obj().Name()
+					}
+				}
+			}
+			want := ""
+			if known {
+				want = camel(d.name) + "C"
+			}
+			// body offset
+			off := "?"
+			derivesFrom(cl.Call.Args[0], func(v ssa.Value) bool {
+				if sl, ok := v.(*ssa.Slice); ok && off == "?" {
+					off = offShape(sl.Low)
+				}
+				return false
+			}, true)
+			key := fmt.Sprintf("%s: answer 0x%08x", fnName(f), uint32(k))
+			c.check(known && eq && (tname == want || strings.EqualFold(tname, want)) && off == "4", R, key, cl.Pos(), fmt.Sprintf("%s decoded into %s from offset 4 on the == edge", d.name, tname),
+				fmt.Sprintf("%s decodes an answer into %s from offset %s behind 'tag %s 0x%08x': the id must be a constructor of lite_api.tl (found: %v, %s), tested with ==, the target its generated type (%s) and the body start right after the 4 id bytes", fnName(f), tname, off, map[bool]string{true: "==", false: "!="}[eq], uint32(k), known, d.name, want))
+		}
+	}
+	if n < 2 {
+		c.bad(R, "hand-written answer dispatch found", token.NoPos, fmt.Sprintf("only %d hand-decoded answers found in package liteclient; at least the two wait calls were confirmed", n))
+	}
 }
